@@ -97,6 +97,8 @@ CHAINS = {
     "assign": lambda x: x.assign(z=x["k"] + x["w"]),
     "filter": lambda x: x[x["w"] > 3],
     "proj_filter": lambda x: x[x["k"] > 1][["v", "w"]],
+    "proj_reorder": lambda x: x[["w", "k"]],
+    "proj_reorder_ew": lambda x: x[["w", "v", "k"]] * 2,
     "bcast_scalar": lambda x: x["v"] - x["v"].mean(),
     "bcast_series": lambda x: x[["k", "w"]] + x[["k", "w"]].sum(),
     "map_partitions": lambda x: x.map_partitions(_mp),
@@ -160,9 +162,13 @@ def _cmp_parts(a, b, ordered, labelled=True):
     return compare(a, b, ordered=ordered, labelled=labelled)
 
 
+LABELLED = {"v": True}
+
+
 def _evaluate(case):
     viols, info = [], {}
     ordered = case["chain"] not in ("shuffle", "shuffle_np2", "shuffle_ew", "bcast_join", "bcast_join_left", "hash_join")
+    labelled = case["chain"] not in ("reset_index", "bcast_join", "bcast_join_left", "hash_join")
     with dask.config.set({"dataframe.shuffle.method": "tasks"}):
         try:
             src = make_source(case["source"])
@@ -201,14 +207,14 @@ def _evaluate(case):
                         viols.append({"kind": "selection_npartitions", "detail": f"partitions[{S}] gave {len(got)} partitions"})
                         continue
                     info["regrouped"] = info.get("regrouped", 0) + 1
-                    r = _cmp_parts(core._concat(want), core._concat(got), ordered)
+                    r = _cmp_parts(core._concat(want), core._concat(got), ordered, labelled)
                     if r:
                         viols.append({"kind": "selection_rows_fused_io:" + r.split(" ")[0], "detail": f"partitions[{S}]: {r}"})
                     continue
                 if sel.npartitions != len(S):
                     viols.append({"kind": "selection_reported_npartitions", "detail": f"partitions[{S}].npartitions == {sel.npartitions}"})
                 for s_, w, g in zip(S, want, got):
-                    r = _cmp_parts(w, g, ordered)
+                    r = _cmp_parts(w, g, ordered, labelled)
                     if r:
                         viols.append({"kind": "selection_contents:" + r.split(" ")[0], "detail": f"partitions[{S}] -> partition {s_}: {r}"})
                         break
@@ -217,7 +223,7 @@ def _evaluate(case):
                 nsel += 1
                 try:
                     g = run_parts(x.get_partition(i).optimize().expr)
-                    r = _cmp_parts(full[i], g[0], ordered) if len(g) == 1 else f"{len(g)} partitions"
+                    r = _cmp_parts(full[i], g[0], ordered, labelled) if len(g) == 1 else f"{len(g)} partitions"
                     if r:
                         viols.append({"kind": "get_partition:" + str(r).split(" ")[0], "detail": f"get_partition({i}): {r}"})
                 except CaseTimeout:
@@ -229,7 +235,7 @@ def _evaluate(case):
                 ds = x.to_delayed()
                 if len(ds) != p and case["source"] in FILE_SOURCES:
                     gs = [d.compute(scheduler="sync") for d in ds]
-                    r = _cmp_parts(core._concat(full), core._concat(gs), ordered)
+                    r = _cmp_parts(core._concat(full), core._concat(gs), ordered, labelled)
                     if r:
                         viols.append({"kind": "to_delayed_rows_fused_io:" + r.split(" ")[0], "detail": r})
                 elif len(ds) != p:
@@ -237,7 +243,7 @@ def _evaluate(case):
                 else:
                     for i, d in enumerate(ds):
                         g = d.compute(scheduler="sync")
-                        r = _cmp_parts(full[i], g, ordered)
+                        r = _cmp_parts(full[i], g, ordered, labelled)
                         if r:
                             viols.append({"kind": "to_delayed:" + r.split(" ")[0], "detail": f"delayed {i}: {r}"})
                             break
@@ -265,7 +271,7 @@ def _evaluate(case):
                     except Exception as e:  # noqa: BLE001
                         viols.append({"kind": "head_raises:" + exc_kind(e), "detail": f"head({n}, npartitions={k}): {short(e)}"})
                         continue
-                    r = compare(avail.head(n), got, ordered=True, labelled=True)
+                    r = compare(avail.head(n), got, ordered=True, labelled=labelled)
                     if r:
                         viols.append({"kind": "head:" + r.split(" ")[0], "detail": f"head({n}, npartitions={k}): {r}"})
             for n in sorted({0, 1, 2, len(full[-1]), len(full[-1]) + 1}):
@@ -279,7 +285,7 @@ def _evaluate(case):
                 except Exception as e:  # noqa: BLE001
                     viols.append({"kind": "tail_raises:" + exc_kind(e), "detail": f"tail({n}): {short(e)}"})
                     continue
-                r = compare(full[-1].tail(n), got, ordered=True, labelled=True)
+                r = compare(full[-1].tail(n), got, ordered=True, labelled=labelled)
                 if r:
                     viols.append({"kind": "tail:" + r.split(" ")[0], "detail": f"tail({n}): {r}"})
     info["selections"] = nsel
